@@ -10,14 +10,18 @@ DomainVec == << [k |-> "allpairs", dom |-> SetToSeq(Strings)] >>
 
 \* C01: structured (epoch, upstream, revision) triples, all ordered pairs
 Epochs == {<<48>>, <<49>>, <<49, 48>>}
-Ups == {<<49>>} \cup {<<49>> \o s : s \in Strings \ {<<>>}}
+Ups == {<<49>>} \cup {<<49>> \o s : s \in Strings \ {<<>>}} \cup {s \o <<49>> : s \in {t \in Strings : t # <<>> /\ t[1] \in 48..57}}
 Revs == {<<>>, <<48>>, <<49>>, <<126>>}
 Vers == {[e |-> e, u |-> u, r |-> r] : e \in Epochs, u \in Ups, r \in Revs}
 Literals == { [e |-> <<48>>, u |-> <<49, 46, 48, 126, 114, 99, 49>>, r |-> <<>>],   \* 1.0~rc1
               [e |-> <<48>>, u |-> <<49, 46, 48>>, r |-> <<>>],                       \* 1.0
               [e |-> <<48>>, u |-> <<49, 46, 48, 43, 98, 49>>, r |-> <<>>],           \* 1.0+b1
               [e |-> <<48>>, u |-> <<49, 46, 48>>, r |-> <<48>>] }                     \* 1.0-0
+\* upstream parts with hyphens and colons inside (legal when a revision / an epoch is written): "1-1" vs "1", "1:0-1" ...
+HyUps == {<<49>> \o s : s \in SeqsUpTo({48, 49, HYPHEN, COLON}, 2)}
+HyVers == {[e |-> <<48>>, u |-> u, r |-> r] : u \in HyUps, r \in {<<>>, <<49>>}}
 CmpVecs == SetToSeq({[k |-> "cmp", a |-> a, b |-> b] : a \in Vers \cup Literals, b \in Vers \cup Literals})
+           \o SetToSeq({[k |-> "cmp", a |-> a, b |-> b] : a \in HyVers, b \in HyVers})
 
 \* C03: every string over the alphabet
 ParseVecs == SetToSeq({[k |-> "parse", s |-> s] : s \in Strings})
